@@ -27,10 +27,7 @@ class Obligation:
     case: str = ""
 
     def key(self):
-        s = z3.Solver()
-        s.add(*self.pc)
-        s.add(self.goal if self.expect_sat else z3.Not(self.goal))
-        return hashlib.sha1((self.name + s.sexpr()).encode()).hexdigest()
+        return (self.name, self.case, self.expect_sat, tuple(f.hash() for f in self.pc), self.goal.hash())
 
 
 class Oracle:
@@ -71,12 +68,69 @@ class Engine(ExprMixin, BuiltinMixin):
         self.inline_depth = 0
         self.paths_run = 0
         self._feas = z3.Solver()
+        self.goal_pos = set()
+        self._skolem_here = False
+        self.case_env = {}
 
     # ---- obligations -------------------------------------------------------------------------------------
+    # sequence functionals: value determined by the first n elements of their array arguments
+    FUNCTIONALS = {"mean": ([0], 1), "Fobj": ([1], 2), "WF": ([1], 2), "nanfree": ([1], 2), "dot": ([0, 1], 2)}
+
+    def congruence_instances(self, formulas):
+        """prefix-congruence lemma instances for pairs of ground applications of sequence functionals"""
+        apps = {}
+        for f in formulas:
+            for e in self._functional_apps(f):
+                apps.setdefault(e.decl().name(), {})[e.get_id()] = e
+        out = []
+        for nm, d in apps.items():
+            arrs, npos = self.FUNCTIONALS[nm]
+            ts = list(d.values())[:8]
+            for a in range(len(ts)):
+                for b in range(a + 1, len(ts)):
+                    t1, t2 = ts[a], ts[b]
+                    i = z3.Int(f"cg_{nm}_{a}_{b}")
+                    n1 = t1.arg(npos)
+                    hyp = [n1 == t2.arg(npos)]
+                    for p in range(t1.num_args()):
+                        if p in arrs:
+                            hyp.append(z3.ForAll([i], z3.Implies(z3.And(i >= 0, i < n1), t1.arg(p)[i] == t2.arg(p)[i])))
+                        elif p != npos:
+                            hyp.append(t1.arg(p) == t2.arg(p))
+                    out.append(z3.Implies(z3.And(*hyp), t1 == t2))
+        return out
+
+    def _functional_apps(self, f):
+        memo = self._fa_memo
+        hit = memo.get(f.get_id())
+        if hit is not None:
+            return hit
+        found = []
+        seen = set()
+        stack = [f]
+        while stack:
+            e = stack.pop()
+            if e.get_id() in seen:
+                continue
+            seen.add(e.get_id())
+            if z3.is_quantifier(e):
+                stack.append(e.body())
+                continue
+            if z3.is_app(e):
+                if e.decl().kind() == z3.Z3_OP_UNINTERPRETED and e.decl().name() in self.FUNCTIONALS and not _has_bound_var(e):
+                    found.append(e)
+                stack.extend(e.children())
+        memo[f.get_id()] = found
+        return found
+
     def oblige(self, st: State, goal, kind, label, loc="", clause="", expect_sat=False):
-        if z3.is_true(goal) and not expect_sat:
-            # still count trivially true obligations (they are generated from the source)
-            pass
+        if not expect_sat:
+            extra = self.congruence_instances(list(st.pc) + [goal])
+            if extra:
+                st = st.clone()
+                for f in extra:
+                    st.assume(f)
+                self.ctx.tags.add("AX_sequence_functionals_depend_on_elements_only")
         name = f"K.{self.cur.qname.replace('pyvolutionary.', '')}.{kind}:{label}"
         ob = Obligation(name, kind, list(st.pc), goal, loc, clause, tuple(sorted(self.ctx.tags)), expect_sat,
                         self.cur.qname, self.case_label)
@@ -84,12 +138,9 @@ class Engine(ExprMixin, BuiltinMixin):
 
     # ---- path choice ---------------------------------------------------------------------------------------
     def feasible(self, st: State, cond):
-        s = self._feas
-        s.reset()
-        s.set("timeout", self.feas_timeout_ms)
-        s.add(*st.pc)
-        s.add(cond)
-        return s.check() != z3.unsat
+        """May `cond` hold on this path?  Decided on the quantifier-free part of the path condition (dropping
+        assumptions keeps `unsat` valid); anything else counts as feasible."""
+        return self.ctx.inc.check(st.pc, cond) != z3.unsat
 
     def choose(self, st: State, cond) -> bool:
         if isinstance(cond, bool):
@@ -149,7 +200,11 @@ class Engine(ExprMixin, BuiltinMixin):
             return
         fdef, mi, ci = found
         cases = c.cases or [{}]
+        import os as _os
+        only = _os.environ.get("PYVC_CASE")
         for idx, case in enumerate(cases):
+            if only is not None and str(idx) != only:
+                continue
             label = ",".join(f"{k}={v}" for k, v in case.items()) or "-"
             try:
                 for _ in self.enumerate_paths(lambda: self._run_path(c, fdef, mi, ci, case, label)):
@@ -161,6 +216,7 @@ class Engine(ExprMixin, BuiltinMixin):
         self.ctx = Ctx(c.float_mode, self.reg.field_types)
         self._axiom_cache = {}
         self._axiom_ids = set()
+        self._fa_memo = {}
 
     def _bind_params(self, st: State, c: Contract, fdef, case, ci):
         args = fdef.args
@@ -202,6 +258,7 @@ class Engine(ExprMixin, BuiltinMixin):
         if v.t[0] == "enum":
             st.assume(z3.And(v.z >= 0, v.z < len(ENUMS[v.t[1]])))
         if v.t[0] in ("list", "nd"):
+            st.type_tag(v)
             st.assume(st.seq_len(v) >= 0)
 
     def _run_path(self, c: Contract, fdef, mi, ci, case, label):
@@ -252,7 +309,7 @@ class Engine(ExprMixin, BuiltinMixin):
             env_extra[gname] = static("closure", (lam, st.frames[0], self.cur_mod, self.cur_cls))
         for lab, e in c.labelled("ensures"):
             stc = st.clone()
-            g = self.truth(stc, self.eval_spec(stc, e, old, env_extra))
+            g = self.truth(stc, self.eval_goal(stc, e, old, env_extra))
             # facts introduced while evaluating the clause (axiom instances) are assumptions of the goal
             self.oblige(stc, g, "post", lab, loc, e)
         # cover: the end of the function is reachable under the precondition
@@ -283,7 +340,7 @@ class Engine(ExprMixin, BuiltinMixin):
             self.oblige(st, g, "raises", f"only-when-{e.exc}", e.where or loc, f"raises {e.exc} iff {cond}")
             for lab_i, cl in enumerate(c.raises_ensures.get(e.exc, [])):
                 stc = st.clone()
-                g = self.truth(stc, self.eval_spec(stc, cl, old))
+                g = self.truth(stc, self.eval_goal(stc, cl, old))
                 self.oblige(stc, g, "raises", f"on-{e.exc}-{lab_i + 1}", e.where or loc, cl)
             self.oblige(st, z3.BoolVal(True), "cover", f"raise-{e.exc}", loc, "reachability of the raise", expect_sat=True)
         else:
@@ -291,8 +348,51 @@ class Engine(ExprMixin, BuiltinMixin):
                         f"{e.exc} must not be raised under the precondition")
 
     # ---- spec evaluation ------------------------------------------------------------------------------------
-    def eval_spec(self, st: State, expr: str, old: State | None, extra: dict | None = None) -> V:
+    @staticmethod
+    def mark_positive(root):
+        """ids of the all(...) calls that occur positively in a clause (through and/or, the consequent of implies,
+        the arms of a conditional, and the body of another positive all)"""
+        out = set()
+
+        def walk(n):
+            if isinstance(n, ast.Call) and isinstance(n.func, ast.Name):
+                if n.func.id == "all" and len(n.args) == 1 and isinstance(n.args[0], ast.GeneratorExp):
+                    out.add(id(n))
+                    walk(n.args[0].elt)
+                elif n.func.id == "implies" and len(n.args) == 2:
+                    walk(n.args[1])
+            elif isinstance(n, ast.BoolOp):
+                for v in n.values:
+                    walk(v)
+            elif isinstance(n, ast.IfExp):
+                walk(n.body)
+                walk(n.orelse)
+        walk(root)
+        return out
+
+    def eval_goal(self, st, expr, old, extra=None, mode="spec", frame=None):
+        """evaluate a clause that is about to be proved: positive universal quantifiers are Skolemised"""
+        saved = self.goal_pos
+        self._pending_goal = True
+        try:
+            if mode == "spec":
+                return self.eval_spec(st, expr, old, extra)
+            if mode == "inv":
+                return self.eval_inv(st, expr, old)
+            return self._spec_in(st, expr, old, frame)
+        finally:
+            self.goal_pos = saved
+            self._pending_goal = False
+
+    def _parse_clause(self, expr):
         node = ast.parse(expr.strip(), mode="eval").body
+        if getattr(self, "_pending_goal", False):
+            self.goal_pos = self.mark_positive(node)
+            self._pending_goal = False
+        return node
+
+    def eval_spec(self, st: State, expr: str, old: State | None, extra: dict | None = None) -> V:
+        node = self._parse_clause(expr)
         saved_old, self.old_state = self.old_state, old
         self.spec_mode += 1
         st.frames.append(dict(st.frames[0] if old is None else old.frames[0]))
@@ -393,7 +493,12 @@ class Engine(ExprMixin, BuiltinMixin):
 
     def stmt_AnnAssign(self, st, s):
         if s.value is not None:
-            self.assign(st, s.target, self.eval(st, s.value))
+            val = self.eval(st, s.value)
+            if is_static(val, "emptylist") and isinstance(s.target, ast.Name) and s.target.id in self.cur.locals \
+                    and self.inline_depth == 0:
+                t = parse_type(self.cur.locals[s.target.id])
+                val = st.new_seq(t[1], t[0], z3.IntVal(0))
+            self.assign(st, s.target, val)
 
     def stmt_AugAssign(self, st, s):
         cur = self.eval(st, _load(s.target))
@@ -417,6 +522,10 @@ class Engine(ExprMixin, BuiltinMixin):
             if obj.t[0] != "obj":
                 raise Unsupported(f"attribute store on {obj.t}")
             self.deref(st, obj, tgt)
+            if is_static(val, "emptylist"):
+                ft = st.field_type(tgt.attr)
+                ft = ft[1] if ft[0] == "opt" else ft
+                val = st.new_seq(ft[1], ft[0], z3.IntVal(0))
             st.write_field(obj, tgt.attr, val)
         elif isinstance(tgt, ast.Subscript):
             base = self.eval(st, tgt.value)
@@ -437,6 +546,10 @@ class Engine(ExprMixin, BuiltinMixin):
         raise Unsupported(f"unpack of {val.t}")
 
     def stmt_If(self, st, s):
+        if not s.orelse and any(isinstance(x, ast.Attribute) and x.attr == "_debug" for x in ast.walk(s.test)) and \
+                all(isinstance(b, ast.Expr) and isinstance(b.value, ast.Call) and isinstance(b.value.func, ast.Name)
+                    and b.value.func.id == "print" for b in s.body):
+            return      # `if self._debug: print(...)` - dropped by extraction (writes to stdout only)
         c = self.truth(st, self.eval(st, s.test))
         if self.choose(st, c):
             self.exec_block(st, s.body)
@@ -502,22 +615,9 @@ class Engine(ExprMixin, BuiltinMixin):
         return names
 
     def _havoc_loop(self, st: State, lid, body, extra_names=()):
-        """Havoc everything the loop body may modify: assigned locals, contents of locally mutated lists,
-        and the heap locations named in loop_assigns (default: fields stored through `self.` in the body)."""
-        for n in sorted(self._assigned_names(body) | set(extra_names)):
-            if n in st.env and st.env[n].z is not None:
-                old = st.env[n]
-                nv = self.ctx.fresh(n, old.t)
-                if old.none is not None:
-                    nv.none = self.ctx.fresh_z(n + "_isnone", z3.BoolSort())
-                if is_ref(nv.t):
-                    pass
-                st.env[n] = nv
-            elif n in st.env and st.env[n].t[0] == "tuple":
-                st.env[n] = self.ctx.fresh(n, st.env[n].t)
-        for n in sorted(self._mutated_lists(body)):
-            if n in st.env and st.env[n].t[0] == "list":
-                self._havoc_seq(st, st.env[n])
+        """Loop head after an arbitrary number of iterations: objects that existed at loop entry keep every field
+        except the locations the body assigns (loop_assigns, or what is collected syntactically); objects allocated
+        by earlier iterations are unconstrained (the invariant has to say what is known about them)."""
         la = self.cur.loop_assigns.get(lid)
         if la is None:
             la = []
@@ -528,22 +628,53 @@ class Engine(ExprMixin, BuiltinMixin):
                 if isinstance(node, ast.Call):
                     cc = self._static_contract_of_call(st, node)
                     if cc is not None:
-                        if cc.allocates:
-                            la.append("alloc")
                         for a in cc.assigns:
+                            if a in ("rng", "evals"):
+                                continue
                             if a.startswith("self.") and isinstance(node.func, ast.Attribute) and \
                                     isinstance(node.func.value, ast.Name) and node.func.value.id == "self":
                                 la.append(a)
-                            elif a.startswith("field:") or a == "*":
-                                la.append(a)
                             else:
                                 raise Unsupported(f"loop_assigns needed for {lid} (callee assigns {a})")
-                if isinstance(node, ast.Call) and isinstance(node.func, (ast.Name, ast.Attribute)):
-                    la.append("alloc?")
-        self._havoc_locs(st, la, st.env)
-        # anything allocated in earlier iterations: alloc may have grown
-        if any(a in ("alloc", "alloc?") for a in la) or True:
-            st.havoc_alloc()
+        # targets are evaluated in the entry state
+        targets = []
+        for a in la:
+            if a.startswith("content(") and a.endswith(")"):
+                targets.append(("content", self.eval(st, ast.parse(a[8:-1], mode="eval").body)))
+            elif "." in a:
+                objname, fname = a.rsplit(".", 1)
+                targets.append(("field", self.eval(st, ast.parse(objname, mode="eval").body), fname))
+            else:
+                raise Unsupported(f"loop assigns location {a}")
+        entry_alloc = st.alloc
+        for name in list(st.heap):
+            m = st.heap[name]
+            nm = self.ctx.fresh_z(name, m.sort())
+            o = z3.Int(self.ctx.fresh_name("o"))
+            st.assume(z3.ForAll([o], z3.Implies(z3.And(o >= 0, o < entry_alloc), nm[o] == m[o]), patterns=[nm[o]]))
+            st.heap[name] = nm
+        st.havoc_alloc()
+        for n in sorted(self._assigned_names(body) | set(extra_names)):
+            if n in st.env and st.env[n].z is not None:
+                old = st.env[n]
+                nv = self.ctx.fresh(n, old.t)
+                if old.none is not None:
+                    nv.none = self.ctx.fresh_z(n + "_isnone", z3.BoolSort())
+                self._assume_wf(st, nv)
+                st.env[n] = nv
+            elif n in st.env and st.env[n].t[0] == "tuple":
+                st.env[n] = self.ctx.fresh(n, st.env[n].t)
+        for n in sorted(self._mutated_lists(body)):
+            if n in st.env and st.env[n].t[0] == "list":
+                self._havoc_seq(st, st.env[n])
+        for t in targets:
+            if t[0] == "content":
+                self._havoc_seq(st, t[1])
+            else:
+                ft = st.field_type(t[2])
+                nv = self.ctx.fresh(t[2], ft)
+                self._assume_wf(st, nv)
+                st.write_field(t[1], t[2], nv)
 
     def _havoc_seq(self, st, lst: V):
         n = self.ctx.fresh_z("len", z3.IntSort())
@@ -576,7 +707,7 @@ class Engine(ExprMixin, BuiltinMixin):
                 obj = self.eval(st, ast.parse(objname, mode="eval").body)
                 ft = st.field_type(fname)
                 nv = self.ctx.fresh(fname, ft)
-                self._assume_wf_soft(st, nv)
+                self._assume_wf(st, nv)
                 st.write_field(obj, fname, nv)
                 continue
             raise Unsupported(f"assigns location {a}")
@@ -612,13 +743,13 @@ class Engine(ExprMixin, BuiltinMixin):
         for i, inv in enumerate(invs):
             lab, e = inv if isinstance(inv, tuple) else (f"{lid}.inv{i + 1}", inv)
             stc = st.clone()
-            g = self.truth(stc, self.eval_inv(stc, e, entry_state))
+            g = self.truth(stc, self.eval_goal(stc, e, entry_state, mode="inv"))
             self.oblige(stc, g, kind, lab, loc, e)
 
     def eval_inv(self, st, e, entry_state):
         """invariants are evaluated in the current frame (they mention locals); old(.) = function pre-state;
         at_entry(.) is not needed so far."""
-        node = ast.parse(e.strip(), mode="eval").body
+        node = self._parse_clause(e)
         self.spec_mode += 1
         try:
             return self.eval(st, node)
@@ -704,6 +835,63 @@ class Engine(ExprMixin, BuiltinMixin):
             st_.env[iname] = V(("int",), st_.env[iname].z + 1)
         bind.step = step
         self._loop_with_invariant(st, lid, [idx_inv] + list(invs), loc, s.body, cond, bind, extra_havoc=(iname,))
+
+
+_QF_CACHE = {}
+
+
+def qf_part(pc, small_only=False):
+    """quantifier-free formulas of a path condition; with small_only just the short ones (bounds on references)"""
+    out = []
+    for f in pc:
+        k = f.get_id()
+        q = _QF_CACHE.get(k)
+        if q is None:
+            q = (_has_quantifier(f), _size_over(f, 40))
+            _QF_CACHE[k] = q
+        if not q[0] and not (small_only and q[1]):
+            out.append(f)
+    return out
+
+
+def _size_over(e, limit):
+    stack, n = [e], 0
+    while stack:
+        x = stack.pop()
+        n += 1
+        if n > limit:
+            return True
+        if z3.is_app(x):
+            stack.extend(x.children())
+    return False
+
+
+def _has_quantifier(e):
+    stack, seen = [e], set()
+    while stack:
+        x = stack.pop()
+        if x.get_id() in seen:
+            continue
+        seen.add(x.get_id())
+        if z3.is_quantifier(x):
+            return True
+        if z3.is_app(x):
+            stack.extend(x.children())
+    return False
+
+
+def _has_bound_var(e):
+    stack, seen = [e], set()
+    while stack:
+        x = stack.pop()
+        if x.get_id() in seen:
+            continue
+        seen.add(x.get_id())
+        if z3.is_var(x):
+            return True
+        if z3.is_app(x):
+            stack.extend(x.children())
+    return False
 
 
 def _load(node):
